@@ -219,7 +219,13 @@ def build(repo=None):
             st.path = [f"dtypes={'any' if dt_any else 'seq'}", f"stack={'yes' if has_stack else 'no'}"]
 
             # ---- the dtype loop, cut by its invariant
-            loops = [x for x in ast.walk(fn) if isinstance(x, (ast.For, ast.While))]
+            # (in the function itself or in a private module-level helper / method of the metaclass that it calls: those are inlined by the engine)
+            mod_helpers = {b_.name: b_ for b_ in mod.tree.body if isinstance(b_, ast.FunctionDef) and not b_.decorator_list}
+            called_helpers = []
+            for c_ in ast.walk(fn):
+                if isinstance(c_, ast.Call) and isinstance(c_.func, ast.Name) and c_.func.id in mod_helpers and mod_helpers[c_.func.id] not in called_helpers:
+                    called_helpers.append(mod_helpers[c_.func.id])
+            loops = [x for f_ in [fn] + called_helpers for x in ast.walk(f_) if isinstance(x, (ast.For, ast.While))]
             if len(loops) != 1 or not isinstance(loops[0], ast.For):
                 raise Unsupported(f"{FUNC}: expected exactly one loop (the dtype loop), found {len(loops)}")
             loop = loops[0]
